@@ -15,6 +15,7 @@ import (
 	"github.com/pion/interceptor/pkg/pacing"
 	"github.com/pion/interceptor/pkg/report"
 	"github.com/pion/interceptor/pkg/stats"
+	"github.com/pion/interceptor/pkg/twcc"
 	"github.com/pion/rtcp"
 	"github.com/pion/rtp"
 )
@@ -196,4 +197,70 @@ func TestConservePacingEnvelope(t *testing.T) {
 	if worst > 0 {
 		t.Errorf("CONSERVATION pacing: released %d bits more than 2*burst + 1.02*rate*elapsed allows", worst)
 	}
+}
+
+// transport-wide sequence numbers: across the 16-bit wrap, with several streams writing at the same
+// moment, every number is handed out exactly once (C10: no lost update; C15: unique and consecutive).
+// The counter is preset just below the wrap (hook VerifSetNextSequenceNr), then eight goroutines released
+// together allocate across it.
+func TestConserveTwccWrapUnique(t *testing.T) {
+	deadline := time.Now().Add(time.Duration(*fMillis) * time.Millisecond)
+	trials := 0
+	const writers = 8
+	const per = 6
+	for trials == 0 || time.Now().Before(deadline) {
+		trials++
+		f, err := twcc.NewHeaderExtensionInterceptor()
+		if err != nil {
+			t.Fatal(err)
+		}
+		ic, _ := f.NewInterceptor("c")
+		var got [writers][]uint16
+		var ws [writers]interceptor.RTPWriter
+		for i := 0; i < writers; i++ {
+			i := i
+			si := info(uint32(i + 1))
+			si.RTPHeaderExtensions = []interceptor.RTPHeaderExtension{{URI: "http://www.ietf.org/id/draft-holmer-rmcat-transport-wide-cc-extensions-01", ID: 3}}
+			ws[i] = ic.BindLocalStream(si, interceptor.RTPWriterFunc(func(h *rtp.Header, _ []byte, _ interceptor.Attributes) (int, error) {
+				var ext rtp.TransportCCExtension
+				if err := ext.Unmarshal(h.GetExtension(3)); err != nil {
+					return 0, err
+				}
+				got[i] = append(got[i], ext.TransportSequence)
+				return 0, nil
+			}))
+		}
+		first := uint32(65536 - 1 - trials%(writers*per/2))
+		ic.(*twcc.HeaderExtensionInterceptor).VerifSetNextSequenceNr(first)
+		var start, wg sync.WaitGroup
+		start.Add(1)
+		for i := 0; i < writers; i++ {
+			wg.Add(1)
+			go func(i int) {
+				defer wg.Done()
+				start.Wait()
+				for n := 0; n < per; n++ {
+					_, _ = ws[i].Write(&rtp.Header{Version: 2, SSRC: uint32(i + 1), PayloadType: 96, SequenceNumber: uint16(n)}, nil, interceptor.Attributes{})
+				}
+			}(i)
+		}
+		start.Done()
+		wg.Wait()
+		_ = ic.Close()
+		count := map[uint16]int{}
+		for i := range got {
+			for _, x := range got[i] {
+				count[x]++
+			}
+		}
+		for k := 0; k < writers*per; k++ {
+			x := uint16(first + uint32(k))
+			if count[x] != 1 {
+				t.Errorf("CONSERVATION twcc-seq: %d parallel writers allocated %d numbers starting at %d (trial %d): number %d was handed out %d times, want once",
+					writers, writers*per, first, trials, x, count[x])
+				return
+			}
+		}
+	}
+	fmt.Printf("stress conserve-twcc-wrap trials=%d\n", trials)
 }
